@@ -414,7 +414,7 @@ def run_c08(ctx, fa):
     mcheck.model_check(ctx, "MC_Binary", {"Depth": 1 if ctx.quick() else 2}, ["InvResolveIdentity", "InvResolveReorder", "InvResolveSkip", "InvResolveMissing",
                                                         "InvResolvePromote", "InvResolveUnion"], "resolve")
     rnd = ctx.sub_rnd("c08")
-    n = 900 if ctx.quick() else 12000
+    n = 1500 if ctx.quick() else 14000
     cases = []
     steps_count = {}
     tries = 0
